@@ -58,8 +58,65 @@ def _strip(e):
 
 
 def run(ctx):
-    for r in (_r1, _r2, _r3, _r4, _r5, _r6, _r7, _r8, _r9, _r10, _r11, _r12, _r13, _r14):
+    for r in (_r1, _r2, _r3, _r4, _r5, _r6, _r7, _r8, _r9, _r10, _r11, _r12, _r13, _r14, _r15):
         ctx.attempt(r)
+
+
+_CURVE_PARAMETERS = ("k_1", "k_2", "SD", "ND", "TN", "TS", "failure_probability")
+
+
+def parameter_reductions(fn_node):
+    """branch tests that reduce a per-curve parameter (or a local computed from one) over ALL curves to one truth value:
+    `np.isinf(k_2).any()`, `(SD == 0).all()`, `np.isin(native, requested).all()` -> [(node, text)]"""
+    per_curve = set()
+    changed = True
+    while changed:
+        changed = False
+        for st in ast.walk(fn_node):
+            if isinstance(st, ast.Assign) and len(st.targets) == 1 and isinstance(st.targets[0], ast.Name) and st.targets[0].id not in per_curve:
+                if any(isinstance(n, ast.Attribute) and n.attr in _CURVE_PARAMETERS or isinstance(n, ast.Name) and n.id in per_curve
+                       for n in ast.walk(st.value)):
+                    per_curve.add(st.targets[0].id)
+                    changed = True
+    out = []
+    for st in ast.walk(fn_node):
+        if not isinstance(st, (ast.If, ast.IfExp, ast.While)):
+            continue
+        for c in ast.walk(st.test):
+            red = None
+            if isinstance(c, ast.Call) and isinstance(c.func, ast.Attribute) and c.func.attr in ("all", "any") and not c.args:
+                red = c.func.value
+            elif isinstance(c, ast.Call) and (call_name(c) or "") in ("np.all", "np.any", "all", "any", "np.count_nonzero") and c.args:
+                red = c.args[0]
+            if red is None:
+                continue
+            if any(isinstance(n, ast.Attribute) and n.attr in _CURVE_PARAMETERS or isinstance(n, ast.Name) and
+                   (n.id in per_curve or n.id in _CURVE_PARAMETERS) for n in ast.walk(red)):
+                out.append((st, norm_text(st.test)[:70]))
+                break
+    return out
+
+
+def _r15(ctx):
+    """R-C08-15 (expected count zero; built-in example must match): no branch of the Woehler curve accessor is decided by an
+    any/all reduction over a per-curve parameter.  The accessor evaluates a TABLE of curves row by row; `if np.isinf(k_2).any():
+    <no second slope>` takes the decision of one curve for all of them - a collection mixing Miner-original and Haibach curves
+    loses every finite k_2, and cycles()/load() of the collection differ from curve-by-curve evaluation."""
+    prog = ctx.prog
+    ctx.rule("R-C08-15", floor=5, what="no branch of the Woehler curve accessor reduces a per-curve parameter over all curves")
+    ex = ast.parse("def f(self, src, ref, wc):\n    k_2 = np.asarray(wc.k_2)\n    if np.isinf(k_2).any():\n        return 1\n"
+                   "    if src.shape == ():\n        return 2\n").body[0]
+    if len(parameter_reductions(ex)) != 1:
+        raise AnalysisError("R-C08-15 built-in example not matched")
+    ci = prog.cls(WC)
+    for name, defs in sorted(ci.methods.items()):
+        fi = defs[-1]
+        hits = parameter_reductions(fi.node)
+        for st, t in hits:
+            ctx.violated(fi, st, "WoehlerCurve.%s decides a branch by reducing a per-curve parameter over all curves of the table (%s): "
+                         "one curve's value decides the path of every curve" % (name, t), text="branch on a reduction of curve parameters in " + name)
+        if not hits:
+            ctx.holds(fi, fi.node, "WoehlerCurve.%s: no branch on a reduction of curve parameters" % name)
 
 
 def _r14(ctx):
@@ -1003,6 +1060,21 @@ UF = "src/pylife/utils/functions.py"
 
 def variants():
     out = []
+
+    def any_for_all_k2(tree):
+        f = find_func(tree, "WoehlerCurve._make_k")
+        i = next(k for k, st in enumerate(f.body) if isinstance(st, ast.Assign) and isinstance(st.targets[0], ast.Subscript) and
+                 norm_text(st.targets[0].value) == "k")
+        f.body[i] = parse_stmt("if np.isinf(k_2).any():\n    k[below_limit] = np.inf\nelse:\n    k[below_limit] = k_2[below_limit]")
+        return True
+    out.append(witness("no second slope for the whole table as soon as one curve has k_2 = inf", WP, any_for_all_k2, "R-C08-15"))
+
+    def all_native_shortcut(tree):
+        f = find_func(tree, "WoehlerCurve.transform_to_failure_probability")
+        i = next(k for k, st in enumerate(f.body) if isinstance(st, ast.Assign) and isinstance(st.targets[0], ast.Tuple))
+        f.body.insert(i + 1, parse_stmt("if (obj.failure_probability == failure_probability).any():\n    pass"))
+        return True
+    out.append(witness("branch on any() over the native failure probabilities", WP, all_native_shortcut, "R-C08-15"))
 
     def cycles_as_given(tree):
         f = find_func(tree, "WoehlerCurve.basquin_load")
